@@ -20,7 +20,9 @@ const FRESH: u8 = 0xA5;
 const FREED: u8 = 0xDD;
 const QUARANTINE_BYTES: usize = 1 << 20;
 /// Requests above this are never backed by memory: they are recorded and refused.
-pub const HARD_CAP: usize = 1 << 30;
+pub const HARD_CAP: usize = 1 << 32;
+/// blocks above this size are not poisoned or quarantined (their pages stay untouched unless the code under test touches them); red zones are kept
+pub const BIG_BLOCK: usize = 32 << 20;
 
 #[derive(Clone, Copy, Debug, PartialEq, Eq)]
 pub enum EvKind {
@@ -318,7 +320,9 @@ unsafe impl Allocator for CkAlloc {
                     return Err(AllocError);
                 }
                 std::ptr::write_bytes(raw, CANARY, pad);
-                std::ptr::write_bytes(raw.add(pad), FRESH, size);
+                if size <= BIG_BLOCK {
+                    std::ptr::write_bytes(raw.add(pad), FRESH, size);
+                }
                 std::ptr::write_bytes(raw.add(pad + size), CANARY, RED);
                 (
                     raw.add(pad),
@@ -385,7 +389,10 @@ unsafe impl Allocator for CkAlloc {
             }
         });
         let Some((b, guarded)) = rec else { return };
-        if guarded && b.pad != 0 {
+        if guarded && b.pad != 0 && b.size > BIG_BLOCK {
+            check_canaries(&b, "live");
+            std::alloc::dealloc(b.raw, Layout::from_size_align_unchecked(b.raw_size, b.raw_align));
+        } else if guarded && b.pad != 0 {
             check_canaries(&b, "live");
             std::ptr::write_bytes(b.raw.add(b.pad), FREED, b.size);
             let evict: Vec<Live> = with(|l| {
